@@ -201,13 +201,47 @@ func rule152(r *core.Run) {
 				enc := false
 				var walk func(v ssa.Value, d int)
 				walk = func(v ssa.Value, d int) {
-					if d > 3 || enc {
+					if d > 5 || enc {
+						return
+					}
+					if v.Referrers() == nil {
 						return
 					}
 					for _, ref := range *v.Referrers() {
 						switch x := ref.(type) {
 						case *ssa.MakeInterface:
 							walk(x, d+1)
+						case *ssa.Phi:
+							walk(x, d+1)
+						case *ssa.Store:
+							// kept in a local variable, possibly one captured by a transaction closure
+							if cell, ok := x.Addr.(*ssa.Alloc); ok && x.Val == v {
+								for _, cr := range *cell.Referrers() {
+									switch y := cr.(type) {
+									case *ssa.UnOp:
+										walk(y, d+1)
+									case *ssa.MakeClosure:
+										cf, _ := y.Fn.(*ssa.Function)
+										for bi, b := range y.Bindings {
+											if b == ssa.Value(cell) && cf != nil && bi < len(cf.FreeVars) {
+												for _, fr := range *cf.FreeVars[bi].Referrers() {
+													if ld, ok := fr.(*ssa.UnOp); ok {
+														walk(ld, d+1)
+													}
+												}
+											}
+										}
+									}
+								}
+							}
+						case *ssa.MakeClosure:
+							// captured directly (by value)
+							cf, _ := x.Fn.(*ssa.Function)
+							for bi, b := range x.Bindings {
+								if b == v && cf != nil && bi < len(cf.FreeVars) {
+									walk(cf.FreeVars[bi], d+1)
+								}
+							}
 						case ssa.CallInstruction:
 							n := r.P.CalleeName(x)
 							if n == "gopkg.in/mgo.v2/bson.Marshal" || n == "encoding/json.Marshal" || n == "s3afero.(*metaStore).saveMeta" {
